@@ -10,6 +10,10 @@
 //! sibling entry (a kind-f entry with the same content), hf hard link to a file outside, hs hard link to the sibling entry,
 //! ld link to directory, ld2 link to link to directory, dl dangling link, lo link to itself |
 //! 4 hex(plan TOML) 5 expected plan | 6 hex(store TOML) or none 7 expected store | 8 hex(buildpack.toml) 9 expected descriptor |
+//! fields 4 / 6 / 8 may instead hold a *raw state* of the document (its expected field 5 / 7 / 9 is then `!`): `raw:<hex>` a regular file
+//! with exactly these bytes (not valid UTF-8, or a String that is no TOML), `lnk:<hex>` a symbolic link to such a file, `dir` a
+//! directory at the path, `lnkdir` a link to a directory, `missing` nothing at the path, `dangling` a dangling link (store: expected
+//! `none`, tolerated) |
 //! 10 (optional) other variables of the process environment, `hexname=hexvalue,…` (none of them named like an input; `-` = none)
 //! 11 (optional, needs field 10) the *texts* of the paths the platform hands over, `hex(layers)/hex(platform)/hex(plan)/hex(bp)/hex(cwd)`:
 //! the three positional arguments (`-` for layers in detect), the value of CNB_BUILDPACK_DIR, the path the working directory is
@@ -46,7 +50,7 @@ fn run_case(f: &[String]) -> String {
     std::fs::create_dir(bp.join("bin")).unwrap();
     let exe = bp.join("bin").join(phase);
     std::os::unix::fs::symlink(tbp_path(), &exe).unwrap();
-    std::fs::write(bp.join("buildpack.toml"), unhex(&f[8]).unwrap()).unwrap();
+    if place_doc(&bp.join("buildpack.toml"), &f[8], &lt, "desc").is_none() { return "bad-fields".into(); }
     // platform directory (`plat` is what the executable is given; with flag p it is a link to the real one)
     let real_plat = if flags.contains('p') { t.join("plat-real") } else { plat.clone() };
     let mk_plat = || { std::fs::create_dir(&real_plat).unwrap(); if flags.contains('p') { std::os::unix::fs::symlink(&real_plat, &plat).unwrap(); } };
@@ -99,8 +103,8 @@ fn run_case(f: &[String]) -> String {
     }
     let bpplan = work.join("bpplan.toml");
     if phase == "build" {
-        std::fs::write(&bpplan, unhex(&f[4]).unwrap()).unwrap();
-        if f[6] != "none" { std::fs::write(layers.join("store.toml"), unhex(&f[6]).unwrap()).unwrap(); }
+        if place_doc(&bpplan, &f[4], &lt, "plan").is_none() { return "bad-fields".into(); }
+        if f[6] != "none" && place_doc(&layers.join("store.toml"), &f[6], &lt, "store").is_none() { return "bad-fields".into(); }
     }
     let mut cmd = Command::new(&exe);
     let plan_file = if phase == "build" { bpplan.clone() } else { work.join("plan.toml") };
@@ -165,6 +169,24 @@ fn run_case(f: &[String]) -> String {
         (Some(1), 1, None) => format!("err:{}", kinds[0]),
         (c, n, d) => format!("weird:exit={c:?},onerr={n},dump={}", d.is_some()),
     }
+}
+
+/// puts a document (field 4 / 6 / 8) at `path`: hex = a regular file with these bytes; `raw:<hex>` the same (bytes that do not decode);
+/// `lnk:<hex>` a link to such a file in `side`; `dir` a directory; `lnkdir` a link to a directory in `side`; `missing` nothing;
+/// `dangling` a link to nothing
+fn place_doc(path: &std::path::Path, spec: &str, side: &std::path::Path, tag: &str) -> Option<()> {
+    use std::os::unix::fs::symlink;
+    match spec {
+        "missing" => {}
+        "dir" => { std::fs::create_dir(path).ok()?; std::fs::write(path.join("INSIDE"), b"x").ok()?; }
+        "lnkdir" => { let d = side.join(format!("docdir-{tag}")); std::fs::create_dir(&d).ok()?; symlink(&d, path).ok()?; }
+        "dangling" => symlink(side.join(format!("doc-missing-{tag}")), path).ok()?,
+        _ => {
+            if let Some(h) = spec.strip_prefix("lnk:") { let tgt = side.join(format!("doc-{tag}")); std::fs::write(&tgt, unhex(h)?).ok()?; symlink(&tgt, path).ok()?; }
+            else { std::fs::write(path, unhex(spec.strip_prefix("raw:").unwrap_or(spec))?).ok()?; }
+        }
+    }
+    Some(())
 }
 
 /// `$T` -> the temp root (every occurrence)
@@ -912,6 +934,122 @@ fn directed(tier: &str, seed: u64, emit: &mut dyn FnMut(Case)) {
     }
 }
 
+/// a well-formed document of each kind around one string value: `head + value + tail`
+const DOC_FRAMES: [(&str, usize, usize, &[u8], &[u8]); 3] = [
+    ("store", 6, 7, b"[metadata]\nowner = \"", b"\"\nbuilds = 3\n"),
+    ("plan", 4, 5, b"[[entries]]\nname = \"", b"\"\n[entries.metadata]\nversion = \"1\"\n"),
+    ("desc", 8, 9, b"api = \"0.10\"\n\n[buildpack]\nid = \"tbp/c06\"\nversion = \"0.0.1\"\nname = \"", b"\"\n\n[metadata]\nk = \"v\"\n"),
+];
+fn utf16(text: &[u8], le: bool) -> Vec<u8> {
+    let mut o: Vec<u8> = if le { vec![0xff, 0xfe] } else { vec![0xfe, 0xff] };
+    for u in String::from_utf8_lossy(text).encode_utf16() { o.extend_from_slice(&if le { u.to_le_bytes() } else { u.to_be_bytes() }); }
+    o
+}
+/// bytes that are not a document: (tag, bytes, is a String). Not valid UTF-8: Latin-1 / lone continuation / truncated / overlong / surrogate
+/// inside a string value, in a key, in a comment, as the first and as the last byte of the file, a multi-byte character cut at the end of
+/// the file (an interrupted write), UTF-16 with BOM in both byte orders, the generated valid document with one byte of a multi-byte
+/// character removed or with a Latin-1 comment appended; valid UTF-8 that is no TOML: NUL inside a string, NUL as last byte, only NULs
+fn undecodable_docs(head: &[u8], tail: &[u8], valid_doc: &[u8]) -> Vec<(&'static str, Vec<u8>, bool)> {
+    let cat = |parts: &[&[u8]]| parts.concat();
+    let good = cat(&[head, b"x", tail]);
+    let mut v: Vec<(&'static str, Vec<u8>, bool)> = vec![
+        ("latin1-in-string", cat(&[head, b"Ren\xe9", tail]), false),
+        ("latin1-only", cat(&[head, b"\xe9", tail]), false),
+        ("cut-at-end", cat(&[head, b"Ren\xc3"]), false),
+        ("cut-3byte-at-end", cat(&[head, b"\xe2\x82"]), false),
+        ("cut-inside", cat(&[head, b"\xe2\x82", tail]), false),
+        ("lone-continuation", cat(&[head, b"a\x80b", tail]), false),
+        ("overlong", cat(&[head, b"\xc0\x80", tail]), false),
+        ("surrogate", cat(&[head, b"\xed\xa0\x80", tail]), false),
+        ("ff-first", cat(&[b"\xff", &good]), false),
+        ("ff-last", cat(&[&good, b"\xff"]), false),
+        ("latin1-in-comment", cat(&[&good, b"# caf\xe9\n"]), false),
+        ("latin1-in-key", cat(&[&good, b"\"cl\xe9\" = 1\n"]), false),
+        ("bom-then-invalid", cat(&[b"\xef\xbb\xbf", head, b"\xfe", tail]), false),
+        ("utf16le-bom", utf16(&good, true), false),
+        ("utf16be-bom", utf16(&good, false), false),
+        ("generated-latin1-comment", cat(&[valid_doc, b"\n# \xe9\n"]), false),
+        ("nul-in-string", cat(&[head, b"a\x00b", tail]), true),
+        ("nul-last", cat(&[&good, b"\x00"]), true),
+        ("nul-only", vec![0, 0, 0, 0], true),
+    ];
+    // the generated document with the last byte of its first multi-byte character removed
+    if let Some(at) = valid_doc.iter().position(|b| *b >= 0xc2) { let mut d = valid_doc.to_vec(); let w = if d[at] >= 0xf0 { 4 } else if d[at] >= 0xe0 { 3 } else { 2 }; if at + w <= d.len() { d.remove(at + w - 1); v.push(("generated-char-cut", d, false)); } }
+    v
+}
+
+/// (13) plan, store and descriptor as raw file-system state: bytes that are not a String or not TOML, as a file and behind a link; a
+///      directory / a link to a directory / nothing / a dangling link at the path; an empty file; combinations (which error comes first)
+fn directed_rawdocs(_tier: &str, seed: u64, emit: &mut dyn FnMut(Case)) {
+    let mut idx = 0u64;
+    let mut rng = |salt: u64| { idx += 1; Rng::for_case(seed ^ salt, 0xD0C500 + idx) };
+    let set = |c: &mut Case, tf: usize, xf: usize, state: String| { c.fields[tf] = state; c.fields[xf] = "!".into(); };
+    // NOT in the default stream (open question, see propcfg `rule`): raw states of buildpack.toml. `libcnb_runtime` reads the descriptor's
+    // `api` key before anything else and answers a failure with a message on stderr and `exit(254)`: no context, but no `on_error` either.
+    let rawdesc = std::env::var("VERIF_C06_RAWDESC").is_ok();
+    for (doc, tf, xf, head, tail) in DOC_FRAMES {
+        if doc == "desc" && !rawdesc { continue; }
+        for phase in ["build", "detect"] {
+            if phase == "detect" && doc != "desc" { continue; }
+            let probe = { let mut r = rng(0xD0C0); base_case(&mut r, "rawdocs", Some(phase)) };
+            let valid_doc = if probe.fields[tf] == "none" { b"[metadata]\nk = \"\xc3\xbc\"\n".to_vec() } else { unhex(&probe.fields[tf]).unwrap() };
+            for (shape, bytes, is_string) in undecodable_docs(head, tail, &valid_doc) {
+                assert_eq!(is_utf8(&bytes), is_string, "{doc} {shape}");
+                // a String among them must be no TOML at all (whatever the document type), so that "does not decode" is not this generator's opinion
+                if is_string { assert!(toml::from_str::<toml::Table>(std::str::from_utf8(&bytes).unwrap()).is_err(), "{doc} {shape} parses"); }
+                for place in ["raw", "lnk"] {
+                    let mut r = rng(0xD0C1);
+                    let mut c = base_case(&mut r, "rawdocs", Some(phase));
+                    set(&mut c, tf, xf, format!("{place}:{}", hex(&bytes)));
+                    c.tags.push(("sub".into(), format!("{doc}-{shape}")));
+                    c.tags.push(("docstate".into(), if is_string { "not-toml" } else { "not-utf8" }.into()));
+                    c.tags.push(("place".into(), place.into()));
+                    emit(c);
+                }
+            }
+            for state in ["dir", "lnkdir", "missing", "dangling"] {
+                let mut r = rng(0xD0C2);
+                let mut c = base_case(&mut r, "rawdocs", Some(phase));
+                set(&mut c, tf, xf, state.into());
+                if doc == "store" && (state == "missing" || state == "dangling") { c.fields[xf] = "none".into(); }
+                c.tags.push(("sub".into(), format!("{doc}-{state}")));
+                c.tags.push(("docstate".into(), state.into()));
+                emit(c);
+            }
+            // an empty file (and one that holds a BOM / a comment only): no store metadata, no plan entries; a descriptor without its mandatory keys does not decode
+            for (shape, bytes) in [("empty", &b""[..]), ("bom-only", b"\xef\xbb\xbf"), ("comment-only", b"# nothing\n"), ("newline-only", b"\n")] {
+                for place in ["raw", "lnk"] {
+                    let mut r = rng(0xD0C3);
+                    let mut c = base_case(&mut r, "rawdocs", Some(phase));
+                    match doc {
+                        "desc" => set(&mut c, tf, xf, format!("{place}:{}", hex(bytes))),
+                        _ => { if place == "lnk" { continue; } c.fields[tf] = hex(bytes); c.fields[xf] = if doc == "store" { "{}".into() } else { "[]".into() }; }
+                    }
+                    c.tags.push(("sub".into(), format!("{doc}-{shape}")));
+                    c.tags.push(("docstate".into(), "empty".into()));
+                    emit(c);
+                }
+            }
+        }
+    }
+    // combinations: which failure is reported when several inputs are bad (descriptor, platform, plan, store, target is the code's order);
+    // whatever the order, no context may come out
+    let bad = |k: usize| format!("raw:{}", hex(&[DOC_FRAMES[k].3, &b"Ren\xe9"[..], DOC_FRAMES[k].4].concat()));
+    for combo in 0..24u32 {
+        let mut r = rng(0xD0C4);
+        let mut c = base_case(&mut r, "rawdocs", Some("build"));
+        let mut what = vec![];
+        if combo & 1 != 0 { set(&mut c, 6, 7, if combo & 16 != 0 { "dir".into() } else { bad(0) }); what.push("store"); }
+        if combo & 2 != 0 { set(&mut c, 4, 5, bad(1)); what.push("plan"); }
+        if combo & 4 != 0 { set(&mut c, 8, 9, bad(2)); what.push("desc"); }
+        if combo & 8 != 0 { c.fields[3] = if combo & 16 != 0 { "notdir".into() } else { entry(b"BADVAR", "f", b"\xff") }; what.push("plat"); }
+        if combo & 16 != 0 && combo & 8 == 0 { let mut vars: Vec<Option<Vec<u8>>> = vec![Some(b"linux".to_vec()), Some(b"amd64".to_vec()), None, None, Some(b"24.04".to_vec())]; if combo & 2 != 0 { vars[0] = Some(b"\xff".to_vec()); } c.fields[2] = var_field(&vars); what.push("target"); }
+        if what.is_empty() || (combo & 4 != 0 && !rawdesc) { continue; }
+        c.tags.push(("sub".into(), format!("combo-{}", what.join("+"))));
+        emit(c);
+    }
+}
+
 fn generate(tier: &str, seed: u64, emit: &mut dyn FnMut(Case)) {
     let n = if tier == "thorough" { 40_000 } else { 3_000 };
     // a fixed head: every target class once per phase draw, so the tagged minorities are present whatever the seed
@@ -921,6 +1059,7 @@ fn generate(tier: &str, seed: u64, emit: &mut dyn FnMut(Case)) {
     }
     directed(tier, seed, emit);
     directed_paths(tier, seed, emit);
+    directed_rawdocs(tier, seed, emit);
     // the seeded stream; one case in four hands its paths over in other spellings (drawn last: the rest of the case is what it was)
     for idx in 0..n {
         let mut r = Rng::for_case(seed, idx);
